@@ -1,25 +1,23 @@
 let tok_of_map m = match m with MWake -> "W" | MRF -> "R" | MDrift -> "D" | MFP -> "F"
 
-(* step <id> <n> <it> ; wp (n) ; t ; xc ; dro (n) ; data (n*n)      (single bunch) *)
+(* step <id> <n> <nb> <it> ; wp (nb*n) ; t ; xc ; dro (n) ; data (nb*n*n)      (nb bunches, bunch-major) *)
 let do_step () =
   let id = next () in
-  let n = nexti () in let it = nexti () in
-  let wp = nextqs n in
+  let n = nexti () in let nb = nexti () in let it = nexti () in
+  let wp = nextqs (nb * n) in
   let t = nextq () in let xc = nextq () in
   let dro = nextqs n in
-  let data = nextqs (n * n) in
-  let zn = z_of_int n and zit = z_of_int it and one = z_of_int 1 in
+  let data = nextqs (nb * n * n) in
+  let zn = z_of_int n and zit = z_of_int it and znb = z_of_int nb in
   Printf.printf "case %s\n" id;
   print_string "order"; List.iter (fun m -> print_char ' '; print_string (tok_of_map m)) step_order; print_newline ();
-  let wo = wake_offsets_list one zn wp in
-  let ro = rf_offsets_list one zn t xc in
-  print_qs "woff" wo;
-  print_qs "rfoff" ro;
-  print_string "wtab"; List.iter (fun (i, _) -> Printf.printf " %s" (hex_of_z i)) (table_list zn zit wo); print_newline ();
-  print_string "rtab"; List.iter (fun (i, _) -> Printf.printf " %s" (hex_of_z i)) (table_list zn zit ro); print_newline ();
-  print_qs "pred" (predicted_list zn one wp t xc);
-  print_string "mom"; List.iter (fun (a, b) -> Printf.printf " %s %s" (tok_of_q a) (tok_of_q b)) (moments_list zn one data); print_newline ();
-  List.iter2 (fun m g -> print_qs ("g" ^ tok_of_map m) g) step_order (step_grids zn one zit wp t xc dro data);
+  print_qs "woff" (wake_offsets_list znb zn zit wp);
+  print_qs "rfoff" (rf_offsets_list znb zn t xc);
+  print_string "wtab"; List.iter (fun i -> Printf.printf " %s" (hex_of_z i)) (wake_table_idx_list znb zn zit wp); print_newline ();
+  print_string "rtab"; List.iter (fun i -> Printf.printf " %s" (hex_of_z i)) (rf_table_idx_list znb zn zit t xc); print_newline ();
+  print_qs "pred" (predicted_list zn znb wp t xc);
+  print_string "mom"; List.iter (fun (a, b) -> Printf.printf " %s %s" (tok_of_q a) (tok_of_q b)) (moments_list zn znb data); print_newline ();
+  List.iter2 (fun m g -> print_qs ("g" ^ tok_of_map m) g) step_order (step_grids zn znb zit wp t xc dro data);
   print_string "end\n"
 
 (* scaling <id> Ib dt c sigma_z delta_E sigma_delta E0 nmax  -> the generated expression, exactly *)
